@@ -226,7 +226,159 @@ func c07Body(r *vlib.Run) int {
 			c07NearMaxRun(r, k, fl, rand.New(rand.NewSource(seeds[k%len(seeds)]+int64(k))))
 		}
 	}
+	for k := 0; k < r.N(1, 4); k++ {
+		c07OverLimitRun(r, k, rand.New(rand.NewSource(seeds[(k+7)%len(seeds)])))
+	}
 	return n / 2
+}
+
+// c07OverLimitRun: lines longer than the servers' MaxLineLength (4096 here).
+// The server cuts such a line into pieces of MaxLineLength bytes and sends each
+// piece as a record of its own (own running number, newline appended). The
+// oracle re-assembles the pieces per source label: put together they must be
+// exactly one line of that source, the running numbers advance by one per
+// piece, and nothing of another source may sit between the bytes of a piece.
+func c07OverLimitRun(r *vlib.Run, k int, rng *rand.Rand) {
+	const M = 4096
+	fl, err := startFleet(r, fmt.Sprintf("c07over%d", k), 3, map[string]interface{}{"MaxConcurrentCats": 8, "MaxConnections": 50, "MaxLineLength": M}, nil, "error")
+	if err != nil {
+		r.Inconclusive("fleet-start")
+		return
+	}
+	defer fl.Stop()
+	sub := "over"
+	for s := range fl.Servers {
+		for f := 0; f < 2; f++ {
+			var b bytes.Buffer
+			name := fmt.Sprintf("f%d.log", f)
+			for q := 1; q <= 120; q++ {
+				l := 40 + rng.Intn(160)
+				if q%15 == 3+s {
+					l = []int{M + 1, M + 900, 2*M + 5, 3*M - 1, 2 * M, 5000, 13000}[rng.Intn(7)]
+				}
+				b.WriteString(c07Line(fl.Servers[s].Spec.Name, name, q, l))
+				b.WriteByte('\n')
+			}
+			fl.WriteFile(s, filepath.Join(sub, name), b.Bytes())
+		}
+	}
+	glob := k%2 == 0
+	filesArg := filepath.Join(sub, "f0.log") + "," + filepath.Join(sub, "f1.log")
+	if glob {
+		filesArg = filepath.Join(sub, "*.log")
+	}
+	full := append(fl.ClientArgs(), "--logger", "stdout", "--logLevel", "error", "--noColor", "--files", filesArg)
+	res, out := runPaced(vlib.Cmd{Path: r.Bin("dcat"), Args: full, Env: fl.ClientEnv(), Dir: fl.Home, Watchdog: 240 * time.Second}, pacing{Kind: "fast"}, 65536)
+	r.Eval(fmt.Sprintf("overlimit|%d|%v", k, glob))
+	r.Count("runs_with_lines_longer_than_the_line_limit", 1)
+	if res.TimedOut {
+		r.Inconclusive("client-watchdog")
+		return
+	}
+	text := string(out)
+	why, where := "", ""
+	if text != "" && !strings.HasSuffix(text, "\n") {
+		if !glob {
+			if r.Known("c07.cmd-race-tail", "multi-command session: the client exits while a line of a later command is being printed (same root cause as c02.cmd-race)") {
+				return
+			}
+		}
+		why = "output does not end with a complete line"
+	}
+	type acc struct {
+		buf    string
+		pieces int
+		first  int // running number of the first piece
+	}
+	pending := map[string]*acc{}
+	extra := map[string]int{}   // pieces beyond one per line, so far, per source
+	lastSeq := map[string]int{} // per source
+	exactMultiple := map[string]string{}
+	whole, assembled := 0, 0
+	for _, l := range strings.Split(strings.TrimSuffix(text, "\n"), "\n") {
+		if why != "" {
+			break
+		}
+		if l == "" || strings.HasPrefix(l, "SERVER|") || strings.HasPrefix(l, "CLIENT|") {
+			continue
+		}
+		parts := strings.SplitN(l, "|", 6)
+		if len(parts) != 6 || parts[0] != "REMOTE" {
+			why, where = "line is not a REMOTE record", l
+			break
+		}
+		count, cerr := strconv.Atoi(strings.TrimSpace(parts[3]))
+		if cerr != nil {
+			why, where = "line number field is not a number", l
+			break
+		}
+		label := parts[1] + "/" + parts[4]
+		if src, ok := exactMultiple[label]; ok && pending[label] == nil {
+			delete(exactMultiple, label)
+			if parts[5] == "" {
+				// the terminator of a line whose length is an exact multiple of
+				// the limit arrives as an empty piece of its own
+				extra[src]++
+				continue
+			}
+		}
+		a := pending[label]
+		if a == nil {
+			a = &acc{first: count}
+			pending[label] = a
+		} else if count != a.first+a.pieces {
+			why, where = fmt.Sprintf("piece %d of a long line carries running number %d, the first piece had %d", a.pieces+1, count, a.first), l
+			break
+		}
+		a.buf += parts[5]
+		a.pieces++
+		rec, kind, _ := c07ParseLine("REMOTE|" + parts[1] + "|" + parts[2] + "|" + parts[3] + "|" + parts[4] + "|" + a.buf)
+		if kind != "remote" {
+			if len(parts[5]) != M || a.pieces > 5 {
+				why, where = "record is neither a whole line nor a full-size piece of one (pieces of one source put together do not form a line)", l
+				break
+			}
+			continue // more pieces to come
+		}
+		delete(pending, label)
+		if a.pieces > 1 {
+			assembled++
+		} else {
+			whole++
+		}
+		src := rec.payloadHost + "/" + rec.payloadFile
+		switch {
+		case rec.host != rec.payloadHost:
+			why = fmt.Sprintf("record labelled with host %q carries a line of host %q", rec.host, rec.payloadHost)
+		case !glob && rec.id != rec.payloadFile:
+			why = fmt.Sprintf("file identifier %q for file %q", rec.id, rec.payloadFile)
+		case a.first-rec.seq != extra[src]:
+			why = fmt.Sprintf("line %d of %s starts at running number %d: %d pieces beyond one per line were delivered before it, so %d was expected", rec.seq, src, a.first, extra[src], rec.seq+extra[src])
+		case rec.seq <= lastSeq[src]:
+			why = fmt.Sprintf("source %s: line %d after line %d", src, rec.seq, lastSeq[src])
+		}
+		if why != "" {
+			where = l
+			break
+		}
+		extra[src] += a.pieces - 1
+		lastSeq[src] = rec.seq
+		if len(a.buf)%M == 0 {
+			exactMultiple[label] = src
+		}
+	}
+	if why == "" && len(pending) > 0 {
+		for label, a := range pending {
+			why, where = fmt.Sprintf("pieces of a long line of %s were never completed (%d pieces, %d bytes)", label, a.pieces, len(a.buf)), vlib.Trunc(a.buf, 120)
+			break
+		}
+	}
+	r.Count("lines_checked", whole+assembled)
+	r.Count("long_lines_reassembled_from_pieces", assembled)
+	if why != "" || res.Panicked() {
+		r.Violation("output-line-invalid", map[string]interface{}{"why": why, "line": vlib.Trunc(where, 300), "servers": len(fl.Servers), "max_line_length": M,
+			"scenario": "lines longer than MaxLineLength: pieces re-assembled per source", "glob": glob, "exit": res.Exit, "stderr": vlib.Trunc(string(res.Stderr), 1000)})
+	}
 }
 
 // c07NearMaxRun: every server delivers files in which a few lines are 2-300
